@@ -77,7 +77,9 @@ func suiteC13(c *Ctx) {
 	// real items around the length-byte boundaries, encoded and decoded again
 	sizes := []int{254, 255, 256, 257, 65534, 65535, 65536, 65537}
 	if c.thorough {
-		sizes = append(sizes, 1<<20, 16777215)
+		// the model costs ~40 us per element: 4M elements is a few minutes; the limit itself
+		// (16,777,215) is exercised on the library by the limit probes of the monitor
+		sizes = append(sizes, 1<<20, 1<<22)
 	}
 	for _, sp := range leafSpecs {
 		for _, total := range sizes {
